@@ -478,6 +478,21 @@ def check_final(prog: Program, res: Result) -> None:
         other = allw - dirs
         res.ob("C19-delete", not (must & other), fi.qualname, f"{fw}: only its own chunk dirs are removed",
                f"with data_pipeline_fw={fw!r} the finally block removes the other framework's directories {sorted(must & other)}", fi.where)
+    # ... and chunk files are only ever written INTO those directories: every dataset built by the trainer gets one of the
+    # removed directories as its np_chunks_path (a dataset pointed at the chunk root leaves its files behind)
+    n_paths = 0
+    for m in ci.methods.values():
+        for c in walk_function(m.node):
+            if isinstance(c, ast.Call):
+                for k in c.keywords:
+                    if k.arg == "np_chunks_path":
+                        n_paths += 1
+                        res.touch(m)
+                        got = norm(astq.expand_at(m.node, k.value, astq_stmt(c)))
+                        res.ob("C19-delete", got in DIRS["torch_dataset_np_chunks"], m.qualname, f"{norm(c.func)}(np_chunks_path={got})",
+                               f"`{short(c, 40)}` writes its .npz chunks to `{got}`, which the finally block of train() does not remove (it removes "
+                               f"{sorted(DIRS['torch_dataset_np_chunks'])}): chunk files survive although their deletion was requested", f"{m.module.relpath}:{c.lineno}")
+    res.ob("C19-delete", n_paths >= 8, ci.qualname, "dataset constructions with a chunk directory found", f"only {n_paths} dataset constructions pass np_chunks_path", "")
     res.floor("C19-delete", 3)
 
 
@@ -762,6 +777,36 @@ def check_runs(prog: Program, res: Result) -> None:
     res.floor(R, 5)
 
 
+def check_rank(prog: Program, res: Result) -> None:
+    """The artifact writes (initial / final configuration, chunk config, cache fill) are gated by `rank is None or rank == 0`
+    with rank = get_dist_rank().  The gate is only right while get_dist_rank returns the INTEGER rank of an initialised
+    process group or None: a rank read from the environment is a string, "0" == 0 is False, and a run launched with
+    LOCAL_RANK exported writes none of its artifacts."""
+    R = "C19-rank"
+    fi = prog.func("sleap_nn.training.utils:get_dist_rank")
+    res.touch(fi)
+    pr = astq.path_returns(fi.node)
+    res.ob(R, pr is not None and len(pr) >= 1, fi.qualname, "get_dist_rank is a loop-free function", "get_dist_rank is no longer a loop-free function of the process-group state", fi.where)
+    for conds, v in pr or []:
+        alts = [v.body, v.orelse] if isinstance(v, ast.IfExp) else [v]
+        for a in alts:
+            is_none = a is None or astq.const_value(a) is None
+            is_rank = isinstance(a, ast.Call) and norm(a.func).split(".")[-1] == "get_rank"
+            is_int = (isinstance(a, ast.Call) and norm(a.func) == "int") or (isinstance(astq.const_value(a), int) and not isinstance(astq.const_value(a), bool))
+            res.ob(R, is_none or is_rank or is_int, fi.qualname, f"returns an integer rank or None: {short(a, 40) if a is not None else 'None'}",
+                   f"get_dist_rank can return `{short(a, 50) if a is not None else ''}`, which is not the integer rank of the process group (nor None): the "
+                   "`rank is None or rank == 0` gates of the artifact writes are False for it and the run leaves no configuration files", fi.where)
+    n = 0
+    for g in prog.all_functions():
+        if not g.module.name.startswith(("sleap_nn.training", "sleap_nn.data.custom_datasets")):
+            continue
+        for st in walk_function(g.node):
+            if isinstance(st, ast.Assign) and isinstance(st.value, ast.Call) and prog.resolve_call(g, st.value) == fi.qualname and isinstance(st.targets[0], ast.Name):
+                n += 1
+    res.ob(R, n >= 4, fi.qualname, "rank-gated sites found", f"only {n} sites read get_dist_rank()", fi.where)
+    res.floor(R, 3)
+
+
 def check(prog: Program, res: Result) -> None:
     check_runs(prog, res)
     check_mask(prog, res)
@@ -770,6 +815,7 @@ def check(prog: Program, res: Result) -> None:
     check_schema(prog, res)
     check_chunk_state(prog, res)
     check_model_config_alias(prog, res)
+    check_rank(prog, res)
     res.floor("C19-final", 3)
     res.assumptions += [
         "wandb's own files under save_dir are outside the analysis (the key reaches wandb only through wandb.login)",
